@@ -145,11 +145,6 @@ Inductive cond :=
 | CGroup (neg : bool) (subs : list cond)
 | CAnd (ops : list cond).
 
-Definition c_negated (c : cond) : bool :=
-  match c with
-  | CSingle n _ | CScore n _ _ | CMin n _ _ | CCds n _ | CGroup n _ => n
-  | CAnd _ => false
-  end.
 Definition is_and (c : cond) : bool := match c with CAnd _ => true | _ => false end.
 Definition is_single_cond (c : cond) : bool := match c with CSingle _ _ => true | _ => false end.
 
@@ -158,7 +153,16 @@ Definition prefix (n : bool) : str := if n then s_not else [].
 Definition s_or_sep : str := codes " or ".     (* ' '.join of [.., TokenTypes.OR, ..] *)
 Definition s_and_sep : str := codes " and ".
 
-(* the __str__ family *)
+(* str.startswith *)
+Fixpoint starts_with (p s : str) : bool :=
+  match p, s with
+  | [], _ => true
+  | _ :: _, [] => false
+  | x :: p', y :: s' => (x =? y) && starts_with p' s'
+  end.
+
+(* the __str__ family.  Conditions.__str__ with one member that is not an AndCondition: a negated group
+   parenthesises the member whenever the member's text starts with "not " (sub_text.startswith("not ")) *)
 Fixpoint show (c : cond) : str :=
   match c with
   | CSingle n name => prefix n ++ name
@@ -170,7 +174,7 @@ Fixpoint show (c : cond) : str :=
     match subs with
     | [sub] =>
       if is_and sub then prefix n ++ codes "(" ++ show sub ++ codes ")"
-      else if n && c_negated sub then prefix n ++ codes "(" ++ show sub ++ codes ")"
+      else if n && starts_with s_not (show sub) then prefix n ++ codes "(" ++ show sub ++ codes ")"
       else prefix n ++ show sub
     | _ => prefix n ++ codes "(" ++ join s_or_sep (map show subs) ++ codes ")"
     end
